@@ -120,7 +120,7 @@ def _eval(s):
     return ex()
 
 
-def run_spec(ctx, src="e2.cxx", exe="e2", prefix_filter="", flags="", per_timeout=None, expect_min=1, reach_timeout=10):
+def run_spec(ctx, src="e2.cxx", exe="e2", prefix_filter="", flags="", per_timeout=None, expect_min=1, reach_timeout=60):
     ctx.trust("g++ 12.2 front end and template instantiation (the verified text is the unmodified /repo header code, instantiated at vsym::sym)",
               "vsym (engines/symvc/vsym: term-building scalar, path scheduler, SMT-LIB emitter) and the TFEL trait specialisations for it",
               "SMT solvers z3 5.1 / cvc5 1.0.3 / z3 4.8.12 (an `unsat` answer from any one discharges the obligation)")
@@ -157,9 +157,14 @@ def run_spec(ctx, src="e2.cxx", exe="e2", prefix_filter="", flags="", per_timeou
             if e["kind"] == "error":
                 res.append(("ob", Obligation("%s/%s/%s/*" % (ctx.pid, c, pth), UNDECIDED, "vsym", 0, e.get("error", "error"))))
         if reach:
-            out, t = _run(SOLVERS[0][1].format(f=reach[0]["file"]), reach_timeout)
-            first = out.strip().split("\n", 1)[0] if out.strip() else ""
-            feasible = True if first == "sat" else (False if first == "unsat" else None)
+            feasible, t = None, 0.0
+            for _name, cmd, _m in SOLVERS[:2]:  # vacuity / feasibility query: any solver may answer
+                out, t1 = _run(cmd.format(f=reach[0]["file"]), reach_timeout)
+                t += t1
+                first = out.strip().split("\n", 1)[0] if out.strip() else ""
+                if first in ("sat", "unsat"):
+                    feasible = first == "sat"
+                    break
             res.append(("reach", (c, pth, feasible, t)))
         for e in ents:
             if e["kind"] != "valid":
